@@ -36,7 +36,8 @@ def impl_env():
 # ----------------------------------------------------------------- generation
 def generators():
     import gen_framing
-    gens = {'Framing': gen_framing.generate}
+    import gen_registry
+    gens = {'Framing': gen_framing.generate, 'Registry': gen_registry.generate}
     try:
         import gen_units
         gens.update(gen_units.GENERATORS)
